@@ -139,6 +139,7 @@ def run(chk, F, tier):
     chk.floor("client-tainted sites", n_client, 8)
     from rules import c25c
     c25c.run_r25c(chk, F)
+    c25c.run_r25d(chk, F)
     # R25b
     tr = None
     for k, b in F.bodies.items():
